@@ -216,15 +216,43 @@ def _strip_lean_comments(src):
     return "".join(out)
 
 
-def grep_forbidden(modules_dirs=("FerretVerif",), extra_files=("Driver.lean",)):
-    """Returns list of (file, line, text) of forbidden constructs outside comments."""
+def _imports_closure(prop_module):
+    """files (relative to LEAN) transitively imported by FerretVerif.Props.<prop_module> inside this package"""
+    todo = ["FerretVerif.Props." + prop_module]
+    seen = []
+    while todo:
+        m = todo.pop()
+        if m in seen or not m.startswith("FerretVerif"):
+            continue
+        path = os.path.join(LEAN, m.replace(".", "/") + ".lean")
+        if not os.path.exists(path):
+            continue
+        seen.append(m)
+        for line in open(path):
+            mm = re.match(r"\s*import\s+(\S+)", line)
+            if mm:
+                todo.append(mm.group(1))
+    return [m.replace(".", "/") + ".lean" for m in seen]
+
+
+def grep_forbidden(prop_module=None):
+    """Returns list of (file, line, text) of forbidden constructs outside comments, in the sources the
+    property's theorems depend on (transitive imports of Props/<prop_module>.lean) plus the driver."""
     hits = []
-    files = []
-    for d in modules_dirs:
-        for root, _, fs in os.walk(os.path.join(LEAN, d)):
-            files += [os.path.join(root, f) for f in fs if f.endswith(".lean")]
-    files += [os.path.join(LEAN, f) for f in extra_files if os.path.exists(os.path.join(LEAN, f))]
+    if prop_module is None:
+        import inspect
+        for fr in inspect.stack():
+            pid = fr.frame.f_globals.get("PID")
+            if pid:
+                prop_module = pid
+                break
+    files = [os.path.join(LEAN, f) for f in _imports_closure(prop_module)] if prop_module else []
+    drv = os.path.join(LEAN, "FerretVerif", "Drv")
+    files += [os.path.join(drv, f) for f in os.listdir(drv) if f.endswith(".lean")] if os.path.isdir(drv) else []
+    files += [os.path.join(LEAN, "Driver.lean")]
     for f in files:
+        if not os.path.exists(f):
+            continue
         src = _strip_lean_comments(open(f).read())
         for ln, line in enumerate(src.split("\n"), 1):
             # string literals may legitimately mention the words (driver messages): drop them
